@@ -305,6 +305,10 @@ def _run(rep, tier, seed, focus, acts_for_sim):
         recs = tlc_emit(rep, f"{focus}-bfs-depth4-reduced", FOCUS[focus], 4, idx=["i0", "s_2", "mask", "ia", "perm"], keys=("a",))
         replay_records(rep, recs, focus, f"{focus}-bfs4", sample_cap=300000, seed=seed)
         del recs
+    if focus in ("rows", "dict"):
+        # the shape gate over long insert / pop / delete / clear histories (emptying and refilling a group with another shape)
+        recs = tlc_emit(rep, "gate-depth5", ["set", "pop", "del", "clear"], 5 if tier == "quick" else 6, objs=[1, 3, 4])
+        replay_records(rep, recs, focus, "gate", sample_cap=40000 if tier == "quick" else 300000, seed=seed)
     if focus == "alias":
         # conversion - in-place update - conversion: histories of in-place operators alone, on operands in m, cm (Array and Vector) and s
         recs = tlc_emit(rep, "alias-iop-depth3", ["iop", "to"], 3 if tier == "quick" else 4, ops=["add", "mul"], objs=[1, 5, 7, 2])
